@@ -18,6 +18,7 @@ import (
 	"sort"
 	"strconv"
 	"strings"
+	"unicode"
 
 	"github.com/tsawler/tabula"
 	"github.com/tsawler/tabula/docx"
@@ -244,6 +245,18 @@ func withExcl(e *tabula.Extractor, excl string) *tabula.Extractor {
 	return e.ExcludeHeadersAndFooters()
 }
 
+// sortedGlyphs: the non-blank characters of s, sorted.
+func sortedGlyphs(s string) []string {
+	var out []string
+	for _, r := range s {
+		if !unicode.IsSpace(r) {
+			out = append(out, string(r))
+		}
+	}
+	sort.Strings(out)
+	return out
+}
+
 func textLines(s string) []string {
 	var out []string
 	for _, l := range strings.Split(s, "\n") {
@@ -368,6 +381,12 @@ func pdfCase(c *hx.Ctx, d Doc, subset []int, excl string, r *hx.Rng, emitOps boo
 	}
 	checkDoc(c, ci, kept, isSub)
 	c.Count("pdf:excl=" + excl)
+	for _, t := range strings.Split(d.Tags, ",") {
+		switch t {
+		case "mixed-sizes", "charlevel-pages", "cover", "chapter-opener":
+			c.Count("pdf:" + t)
+		}
+	}
 
 	// Text(): the filtered text consists of exactly the surviving fragments' texts
 	for i := 0; i < n; i++ {
@@ -389,6 +408,12 @@ func pdfCase(c *hx.Ctx, d Doc, subset []int, excl string, r *hx.Rng, emitOps boo
 		}
 		sort.Strings(want)
 		got := textLines(txt)
+		if len(d.Pages[i].Lines) > 0 {
+			// glyph-by-glyph page: Text() joins the glyphs into words; the surviving text is
+			// then the multiset of the surviving glyphs
+			want = sortedGlyphs(strings.Join(want, ""))
+			got = sortedGlyphs(txt)
+		}
 		c.Check("C11/text-differs-from-fragments", strings.Join(got, "\n") == strings.Join(want, "\n"), ci, func() string {
 			return fmt.Sprintf("page %d: Exclude…().Text() lines %q, surviving fragments %q", i+1, got, want)
 		})
@@ -602,6 +627,51 @@ func witnessCharLevel() Doc {
 	return d
 }
 
+// witnessCover: a glyph-by-glyph cover page (title in the top band, imprint in the
+// bottom band, no running lines), a word-level chapter opener between the sheets, and
+// a running header + footer on the other pages. Nothing may be removed from the cover
+// and the opener; the running lines go from pages 1, 2, 4.
+func witnessCover() Doc {
+	var d Doc
+	for i := 0; i < 5; i++ {
+		p := Page{I: i, H: 792, W: 612}
+		switch i {
+		case 0:
+			p.F = append(p.F, Frag{T: "The Book of Alpha", X: 72, Y: 760, H: 12, FS: 12, L: -1})
+			p.F = append(p.F, Frag{T: "An introduction", X: 72, Y: 400, H: 12, FS: 12, L: -1})
+			p.F = append(p.F, Frag{T: "Imprint Alpha Press", X: 72, Y: 30, H: 12, FS: 12, L: -1})
+			p = explode(p)
+		case 3:
+			p.F = append(p.F, Frag{T: "Part Delta", X: 72, Y: 760, W: 60, H: 12, FS: 12, L: -1})
+			p.F = append(p.F, Frag{T: "Opening words of the part", X: 72, Y: 400, W: 150, H: 12, FS: 12, L: -1})
+		default:
+			p.F = append(p.F, Frag{T: "ACME Report", X: 72, Y: 760, W: 66, H: 12, FS: 12, L: -1})
+			p.F = append(p.F, Frag{T: fmt.Sprintf("Body text of sheet %c", 'A'+i), X: 72, Y: 400, W: 120, H: 12, FS: 12, L: -1})
+			p.F = append(p.F, Frag{T: "Internal use only", X: 72, Y: 30, W: 102, H: 10, FS: 10, L: -1})
+		}
+		d.Pages = append(d.Pages, p)
+	}
+	d.Tags = "witness-cover"
+	return d
+}
+
+// witnessMixedSizes: a portrait cover sheet followed by landscape sheets (then one A4
+// sheet), the running header 32 pt below each page's own top edge, the footer 30 pt
+// above the bottom edge.
+func witnessMixedSizes() Doc {
+	var d Doc
+	sizes := [][2]int{{612, 792}, {792, 612}, {792, 612}, {595, 842}}
+	for i, sz := range sizes {
+		p := Page{I: i, H: sz[1], W: sz[0]}
+		p.F = append(p.F, Frag{T: "ACME Report", X: 72, Y: sz[1] - 32, W: 66, H: 12, FS: 12, L: -1})
+		p.F = append(p.F, Frag{T: fmt.Sprintf("Body text of sheet %c", 'A'+i), X: 72, Y: sz[1] - 200, W: 120, H: 12, FS: 12, L: -1})
+		p.F = append(p.F, Frag{T: "Internal use only", X: 72, Y: 30, W: 102, H: 10, FS: 10, L: -1})
+		d.Pages = append(d.Pages, p)
+	}
+	d.Tags = "witness-mixed-sizes"
+	return d
+}
+
 // ---- Run / Replay ------------------------------------------------------------------------------
 
 func Run(c *hx.Ctx) {
@@ -609,16 +679,22 @@ func Run(c *hx.Ctx) {
 		"all but the first, odd/even alternation or a random subset; page numbers in 13 styles (3, Page 3, 3 / 10, - 3 -, Page 3 of 10, 3/10, p. 3, roman, …) " +
 		"in header or footer; body lines repeating across pages (incl. the header's own text placed in the body band just below the margin), purely numeric body lines; " +
 		"unique marginal texts; double-struck titles; positions jittered within/beyond tolerance; boundary distances 71/72/73; inverted (top-down, oversized) coordinates; " +
-		"character-level pages; empty pages. Each document goes through layout.NewHeaderFooterDetector().Detect(pages).FilterFragments(...) once on fresh copies and then, as a caller that keeps its own slices " +
+		"character-level pages; empty pages; " +
+		"documents in which every page has its own size (portrait cover + landscape sheets, A4 mixed with Letter, one odd sheet, sheets scaled to 50-200 %) with the marginal lines " +
+		"at a constant distance from each page's own top/bottom edge; covers / chapter openers before and between the pages carrying the running lines (no header, footer or page number, " +
+		"a unique title / imprint in the band), with character-level pages chosen per page (only the openers, all but the openers, some, all). Each document goes through layout.NewHeaderFooterDetector().Detect(pages).FilterFragments(...) once on fresh copies and then, as a caller that keeps its own slices " +
 		"(all pages in one backing array, deep copy taken first), through a call sequence (same page twice, Detect-Filter-Detect-Filter, pages in other orders, one shared scratch buffer, " +
 		"per-page AnalyzeWithHeaderFooterFiltering, random mixes) after each step of which the input must equal the copy and every result the single-call result; and, rendered by an independent " +
 		"PDF writer, through tabula.Open(f).Pages(S).ExcludeHeaders()/ExcludeFooters()/ExcludeHeadersAndFooters().Lines()/Text(). Non-trivial = at least one fragment was removed."
-	for wi, d := range []Doc{witnessB20(), witnessEmbeddedNumber(), witnessCharLevel()} {
+	for wi, d := range []Doc{witnessB20(), witnessEmbeddedNumber(), witnessCharLevel(), witnessCover(), witnessMixedSizes()} {
 		directCase(c, d, true)
 		script, kind := genScript(c.Rng.Fork(uint64(3_000_000+wi)), len(d.Pages))
 		seqCase(c, d, script, kind, true)
 	}
 	pdfCase(c, witnessB20(), []int{1}, "hf", nil, true)
+	pdfCase(c, witnessMixedSizes(), nil, "hf", nil, true)
+	pdfCase(c, witnessMixedSizes(), []int{1, 2}, "h", nil, true)
+	pdfCase(c, witnessCover(), []int{0, 3}, "hf", nil, true)
 	microOps(c)
 	nd := c.N(1500, 15000)
 	for i := 0; i < nd; i++ {
@@ -633,6 +709,32 @@ func Run(c *hx.Ctx) {
 	for i := 0; i < np; i++ {
 		r := c.Rng.Fork(uint64(1_000_000 + i))
 		d := genDoc(r, genOpts{pdfSafe: true})
+		var subset []int
+		if r.Chance(2, 3) {
+			for k := range d.Pages {
+				if r.Chance(1, 2) {
+					subset = append(subset, k)
+				}
+			}
+		}
+		excl := hx.Pick(r, []string{"h", "f", "hf"})
+		pdfCase(c, d, subset, excl, r, true)
+	}
+	// every page its own size; covers / chapter openers; character-level pages chosen per page
+	nm := c.N(500, 5000)
+	for i := 0; i < nm; i++ {
+		r := c.Rng.Fork(uint64(5_000_000 + i))
+		d := genDoc(r, genOpts{mix: true})
+		directCase(c, d, true)
+		// as a call sequence too; the model already answered for these pages (c11.hf above) and
+		// every sequence result must equal the single-call result, so no second op is emitted
+		script, kind := genScript(r.Fork(99), len(d.Pages))
+		seqCase(c, d, script, kind, false)
+	}
+	npm := c.N(150, 1500)
+	for i := 0; i < npm; i++ {
+		r := c.Rng.Fork(uint64(6_000_000 + i))
+		d := genDoc(r, genOpts{pdfSafe: true, mix: true})
 		var subset []int
 		if r.Chance(2, 3) {
 			for k := range d.Pages {
